@@ -33,6 +33,7 @@ import (
 	"github.com/AdguardTeam/AdGuardDNS/internal/dnsmsg"
 	"github.com/AdguardTeam/AdGuardDNS/internal/dnsserver"
 	"github.com/AdguardTeam/AdGuardDNS/internal/dnsserver/zzverif/vrt"
+	"github.com/AdguardTeam/AdGuardDNS/internal/dnsserver/zzverif/xsched"
 	"github.com/AdguardTeam/AdGuardDNS/internal/dnssvc/internal/devicefinder"
 	"github.com/AdguardTeam/AdGuardDNS/internal/dnssvc/internal/ratelimitmw"
 	"github.com/AdguardTeam/AdGuardDNS/internal/geoip"
@@ -73,6 +74,9 @@ type c03Case struct {
 	// Raddr and Laddr are the remote and local address of the request.
 	Raddr string `json:"raddr"`
 	Laddr string `json:"laddr"`
+
+	// Host is the question name; "" means host.example.
+	Host string `json:"host,omitempty"`
 
 	// Server settings.
 	Linked  bool     `json:"linked_ip_enabled"`
@@ -406,6 +410,11 @@ type c03Obs struct {
 	NextProf  string `json:"next_prof"`
 	NextDev   string `json:"next_dev"`
 
+	// The request data the next handler read from the agd.RequestInfo in its
+	// context.
+	NextRemoteIP string `json:"next_remote_ip"`
+	NextHost     string `json:"next_host"`
+
 	Created []c03Created `json:"created"`
 	MwErr   string       `json:"mw_err"`
 	Panic   string       `json:"panic"`
@@ -582,18 +591,101 @@ func (s *c03Storage) CreateAutoDevice(
 	}, nil
 }
 
-// c03Finder records the result of the real finder.
-type c03Finder struct {
-	real  agd.DeviceFinder
+// c03ReqState is the harness state of one request in flight; it travels in
+// the context of the request so that concurrent requests on one stack do not
+// share it.
+type c03ReqState struct {
+	obs   *c03Obs
 	calls int
 	res   agd.DeviceResult
 }
 
-func (f *c03Finder) Find(ctx context.Context, req *dns.Msg, raddr, laddr netip.AddrPort) (r agd.DeviceResult) {
-	f.calls++
-	f.res = f.real.Find(ctx, req, raddr, laddr)
+type c03ReqStateKey struct{}
 
-	return f.res
+func c03StateOf(ctx context.Context) (rs *c03ReqState) {
+	rs, _ = ctx.Value(c03ReqStateKey{}).(*c03ReqState)
+	if rs == nil {
+		vrt.Fatalf("no request state in context")
+	}
+
+	return rs
+}
+
+// c03Finder records the result of the real finder for the request.
+type c03Finder struct {
+	real agd.DeviceFinder
+}
+
+func (f *c03Finder) Find(ctx context.Context, req *dns.Msg, raddr, laddr netip.AddrPort) (r agd.DeviceResult) {
+	rs := c03StateOf(ctx)
+	rs.calls++
+	r = f.real.Find(ctx, req, raddr, laddr)
+	rs.res = r
+
+	return r
+}
+
+// c03YieldDB is the real profile database behind scheduling points: a
+// lookup is where a real request waits (lock, cache miss), so the schedule
+// explorer may run other requests before and after it.  The points are no-ops
+// outside of a schedule exploration.
+type c03YieldDB struct {
+	db profiledb.Interface
+}
+
+func (y c03YieldDB) CreateAutoDevice(
+	ctx context.Context,
+	id agd.ProfileID,
+	humanID agd.HumanID,
+	devType agd.DeviceType,
+) (p *agd.Profile, d *agd.Device, err error) {
+	xsched.Yield("profiledb.CreateAutoDevice")
+	defer xsched.Yield("profiledb.CreateAutoDevice done")
+
+	return y.db.CreateAutoDevice(ctx, id, humanID, devType)
+}
+
+func (y c03YieldDB) ProfileByDedicatedIP(ctx context.Context, ip netip.Addr) (p *agd.Profile, d *agd.Device, err error) {
+	xsched.Yield("profiledb.ProfileByDedicatedIP")
+	defer xsched.Yield("profiledb.ProfileByDedicatedIP done")
+
+	return y.db.ProfileByDedicatedIP(ctx, ip)
+}
+
+func (y c03YieldDB) ProfileByDeviceID(ctx context.Context, id agd.DeviceID) (p *agd.Profile, d *agd.Device, err error) {
+	xsched.Yield("profiledb.ProfileByDeviceID")
+	defer xsched.Yield("profiledb.ProfileByDeviceID done")
+
+	return y.db.ProfileByDeviceID(ctx, id)
+}
+
+func (y c03YieldDB) ProfileByHumanID(
+	ctx context.Context,
+	id agd.ProfileID,
+	humanIDLower agd.HumanIDLower,
+) (p *agd.Profile, d *agd.Device, err error) {
+	xsched.Yield("profiledb.ProfileByHumanID")
+	defer xsched.Yield("profiledb.ProfileByHumanID done")
+
+	return y.db.ProfileByHumanID(ctx, id, humanIDLower)
+}
+
+func (y c03YieldDB) ProfileByLinkedIP(ctx context.Context, ip netip.Addr) (p *agd.Profile, d *agd.Device, err error) {
+	xsched.Yield("profiledb.ProfileByLinkedIP")
+	defer xsched.Yield("profiledb.ProfileByLinkedIP done")
+
+	return y.db.ProfileByLinkedIP(ctx, ip)
+}
+
+// c03PlainAuth, when set, replaces bcrypt by a plain comparison in the
+// devices' authenticators (schedule exploration runs each password check
+// thousands of times; bcrypt is trusted, see the assumptions).
+var c03PlainAuth bool
+
+type c03PlainAuthenticator string
+
+func (a c03PlainAuthenticator) Authenticate(_ context.Context, passwd []byte) (ok bool) {
+	return string(passwd) == string(a)
 }
 
 func c03Profile(id agd.ProfileID, devs []agd.DeviceID, deleted, auto bool) (p *agd.Profile) {
@@ -615,11 +707,17 @@ func c03Auth(policy, pw string) (a *agd.AuthSettings) {
 		return &agd.AuthSettings{Enabled: false, PasswordHash: agdpasswd.AllowAuthenticator{}}
 	}
 
-	return &agd.AuthSettings{
-		Enabled:      true,
-		DoHAuthOnly:  policy == "doh-only",
-		PasswordHash: agdpasswd.NewPasswordHashBcrypt(c03Hash(pw)),
+	a = &agd.AuthSettings{
+		Enabled:     true,
+		DoHAuthOnly: policy == "doh-only",
 	}
+	if c03PlainAuth {
+		a.PasswordHash = c03PlainAuthenticator(pw)
+	} else {
+		a.PasswordHash = agdpasswd.NewPasswordHashBcrypt(c03Hash(pw))
+	}
+
+	return a
 }
 
 // c03NewDB builds a real profile database in the state of the case through
@@ -766,7 +864,11 @@ var (
 
 func c03Req(c c03Case) (req *dns.Msg) {
 	req = &dns.Msg{}
-	req.SetQuestion("host.example.", dns.TypeA)
+	host := c.Host
+	if host == "" {
+		host = "host.example."
+	}
+	req.SetQuestion(host, dns.TypeA)
 	if !c.OPT {
 		return req
 	}
@@ -797,9 +899,6 @@ type c03Stack struct {
 	st      *c03Storage
 	finder  *c03Finder
 	handler dnsserver.Handler
-
-	// cur is the observation of the request being served.
-	cur *c03Obs
 
 	// lastRI is the agd.RequestInfo the next handler saw last; reused counts
 	// the requests for which it saw the same object again.
@@ -842,7 +941,7 @@ func c03NewStack(c c03Case) (s *c03Stack) {
 
 	s.finder = &c03Finder{real: devicefinder.NewDefault(&devicefinder.Config{
 		Logger:        slogutil.NewDiscardLogger(),
-		ProfileDB:     db,
+		ProfileDB:     c03YieldDB{db: db},
 		HumanIDParser: agd.NewHumanIDParser(),
 		Server:        srv,
 		DeviceDomains: c.Domains,
@@ -866,13 +965,18 @@ func c03NewStack(c c03Case) (s *c03Stack) {
 	})
 
 	next := dnsserver.HandlerFunc(func(ctx context.Context, _ dnsserver.ResponseWriter, _ *dns.Msg) (err error) {
-		o := s.cur
+		o := c03StateOf(ctx).obs
 		o.NextCalls++
+
+		// A later middleware reads the request information some time after
+		// the rate-limit middleware has passed it on.
+		xsched.Yield("next handler")
 		ri, ok := agd.RequestInfoFromContext(ctx)
 		if !ok {
 			return nil
 		}
 		o.NextHasRI = true
+		o.NextRemoteIP, o.NextHost = ri.RemoteIP.String(), ri.Host
 		if ri == s.lastRI {
 			s.reused++
 		}
@@ -900,8 +1004,7 @@ func (s *c03Stack) serve(c c03Case) (o *c03Obs) {
 		vrt.Fatalf("request %s does not belong to the stack of %s", c03Describe(c), c03Describe(s.cfg))
 	}
 	o = &c03Obs{}
-	s.cur = o
-	s.finder.calls, s.finder.res = 0, nil
+	rs := &c03ReqState{obs: o}
 	createdBefore := len(s.st.created)
 
 	sri := &dnsserver.RequestInfo{StartTime: time.Now(), TLSServerName: c.SNI}
@@ -915,6 +1018,7 @@ func (s *c03Stack) serve(c c03Case) (o *c03Obs) {
 		sri.Userinfo = url.UserPassword(c.User, c.Pass)
 	}
 	ctx := dnsserver.ContextWithRequestInfo(context.Background(), sri)
+	ctx = context.WithValue(ctx, c03ReqStateKey{}, rs)
 
 	rw := dnsserver.NewNonWriterResponseWriter(
 		net.UDPAddrFromAddrPort(netip.MustParseAddrPort(c.Laddr)),
@@ -928,8 +1032,8 @@ func (s *c03Stack) serve(c c03Case) (o *c03Obs) {
 		o.MwErr = err.Error()
 	}
 	o.Created = append([]c03Created(nil), s.st.created[createdBefore:]...)
-	o.FindCalls = s.finder.calls
-	switch res := s.finder.res.(type) {
+	o.FindCalls = rs.calls
+	switch res := rs.res.(type) {
 	case nil:
 		o.Kind = "anon"
 	case *agd.DeviceResultOK:
